@@ -1,1 +1,205 @@
-/-! # C21 — property theorems (stub: not built yet) -/
+import PymocaVerif.Lemmas.CacheState
+import PymocaVerif.Lemmas.CacheFile
+/-!
+# C21 — an interrupted or in-progress cache write never breaks later loads
+
+Two models.  `CacheState` (shared with C20): the cache file is the first `written` bytes of a
+pickle of `size` bytes; `save_model` can die before `open`, or with any number of bytes on
+disk; the file can be cut at any offset.  `CacheFile`: two `transfer_model` calls on one
+folder at byte level (truncating `open`, private file offsets, writes in arbitrary pieces).
+
+Hypothesis `Lawful cfg` is `unpickleErr ⊆ caught`: whatever CPython's unpickler raises on a
+strict prefix of a pickle is among the classes `load_model` converts to `InvalidCacheError`
+(the harness observes the classes on every run; the `except` clauses are in the model as
+`convert`).  Outside the model (stated in the evidence): torn writes that are not prefixes
+when more than two calls race or the two calls write different bytes, and shared libraries
+torn by the linker.
+-/
+namespace PymocaVerif.CacheState
+
+variable {M : Type}
+
+/-- Crash safety at every crash point: let a `transfer_model` die anywhere in `save_model`
+    (before `open`, or with any `k` bytes written — `k = 0` is the empty file, `k ≥ size`
+    the complete one); the next `transfer_model`, with any options, does not raise and returns
+    the compile of the current sources. -/
+theorem crash_safe (cfg : Cfg M) (L : List Folder) (hlaw : Lawful cfg) (w : World M)
+    (h0 : FreshInv cfg L w) (o o' : Opts) (now size now' size' : Nat) (i : Interrupt)
+    (hm : o.norm.mtimeCheck = true) (hl : cfg.exclLibs = true → o.libs = L)
+    (hm' : o'.norm.mtimeCheck = true) (hl' : cfg.exclLibs = true → o'.libs = L) :
+    let w1 := (transfer cfg w o now size i).1
+    (transfer cfg w1 o' now' size').2.model? = some (compileNow cfg w1 o'.norm) :=
+  (transfer_spec o' now' size' .done hlaw (transfer_spec o now size i hlaw h0 hm hl).2 hm' hl').1
+
+/-- The cache file cut at *every* byte offset `k` (whatever mtime the cut leaves): the next
+    `transfer_model` does not raise and returns the compile of the current sources. -/
+theorem truncation_safe (cfg : Cfg M) (L : List Folder) (hlaw : Lawful cfg) (w : World M)
+    (h0 : FreshInv cfg L w) (k t : Nat) (o : Opts) (now size : Nat)
+    (hm : o.norm.mtimeCheck = true) (hl : cfg.exclLibs = true → o.libs = L) :
+    let w1 := (step cfg w (.truncate k t)).1
+    (transfer cfg w1 o now size).2.model? = some (compileNow cfg w1 o.norm) :=
+  (transfer_spec o now size .done hlaw (step_freshInv (.truncate k t) hlaw h0 trivial) hm hl).1
+
+/-- The same for unbounded histories mixing edits, version changes, interrupted transfers,
+    truncations and transfers: no transfer raises, each returns the current compile, and
+    the state stays `Fresh` (so the repaired cache is served afterwards). -/
+theorem crash_safe_history (cfg : Cfg M) (L : List Folder) (hlaw : Lawful cfg) (hist : List Op)
+    (w : World M) (h0 : FreshInv cfg L w) (hadm : Admissible cfg L w hist) :
+    AllCorrect cfg w hist ∧ FreshInv cfg L (run cfg w hist).1 :=
+  history_spec hlaw hist w h0 hadm
+
+/-- After the repair the cache is used again: a transfer that follows an uninterrupted
+    transfer with the same options, nothing newer than the cache, is a hit. -/
+theorem repaired_cache_is_served (cfg : Cfg M) (w : World M) (o : Opts) (now size : Nat)
+    (hc : (o.norm.cache || o.norm.codegen) = true)
+    (hmiss : ∀ m, load cfg w o.norm ≠ .hit m) (hr : ∀ e, load cfg w o.norm ≠ .raised e)
+    (hnow : ∀ f ∈ folders o.norm, ∀ x ∈ w.fs f, x.mtime ≤ now) (now' size' : Nat) :
+    let w1 := (transfer cfg w o now size).1
+    (transfer cfg w1 o now' size').2 = .hit (compileNow cfg w o.norm) := by
+  intro w1
+  cases hload : load cfg w o.norm with
+  | hit m => exact absurd hload (hmiss m)
+  | raised e => exact absurd hload (hr e)
+  | miss r =>
+    have hw1 : w1 = { w with cache := some ⟨now, ⟨w.version, o.norm, compileNow cfg w o.norm⟩, size, size⟩ } := by
+      show (transfer cfg w o now size).1 = _
+      simp [transfer, hc, hload]
+    have hst : (folders o.norm).any (fun f => stale (M := M)
+        ⟨now, ⟨w.version, o.norm, compileNow cfg w o.norm⟩, size, size⟩ (w.fs f)) = false := by
+      rw [List.any_eq_false]
+      intro f hf
+      simp only [stale, List.any_eq_true, decide_eq_true_eq, not_exists, not_and, Nat.not_lt]
+      exact fun x hx => hnow f hf x hx
+    have hl : load cfg w1 o.norm = .hit (compileNow cfg w o.norm) := by
+      rw [hw1]
+      unfold load
+      simp [hst, CacheFile.complete, optsMatch]
+    have hn : o.norm.norm = o.norm := by
+      cases o with
+      | mk libs mt c cg ex rest => cases c <;> cases cg <;> cases ex <;> rfl
+    unfold transfer
+    simp only [hn, hc, Bool.not_true]
+    simp [hl]
+
+/-- The hypothesis `unpickleErr ⊆ caught` is necessary: when unpickling the prefix raises a
+    class outside the `except` clauses the exception escapes `transfer_model` (this is what the
+    code did for every truncation before `cd26bc9`, see `PymocaVerif.CacheState.convert`). -/
+theorem uncaught_class_escapes (cfg : Cfg M) (w : World M) (c : CacheFile M) (o : Opts)
+    (now size : Nat) (hc : w.cache = some c) (hcut : c.written < c.size)
+    (hfresh : ∀ f ∈ folders o.norm, stale c (w.fs f) = false)
+    (hcg : (o.norm.cache || o.norm.codegen) = true)
+    (hbad : convert (cfg.truncErr c.written) = none) :
+    (transfer cfg w o now size).2 = .raised (cfg.truncErr c.written) := by
+  have hst : (folders o.norm).any (fun f => stale c (w.fs f)) = false := by
+    rw [List.any_eq_false]; intro f hf; simp [hfresh f hf]
+  have hcomp : c.complete = false := by simp [CacheFile.complete, hcut]
+  unfold transfer
+  simp only [hcg, Bool.not_true]
+  have : load cfg w o.norm = .raised (cfg.truncErr c.written) := by
+    unfold load
+    simp [hc, hst, hcomp, hbad]
+  simp [this]
+
+/-- The classes CPython documents for unpickling failures (and their subclasses, by MRO) are
+    converted, unless the exception is also a `RuntimeError`. -/
+theorem documented_classes_converted (mro : List String) (d : Bool) (c : String)
+    (hc : c ∈ caughtClasses) (hm : c ∈ mro) (hr : "RuntimeError" ∉ mro) :
+    convert ⟨mro, d⟩ = some .damaged := by
+  have h1 : mro.contains "RuntimeError" = false := by simpa using hr
+  have h2 : mro.any (fun c => caughtClasses.contains c) = true := by
+    rw [List.any_eq_true]; exact ⟨c, hm, by simpa using hc⟩
+  unfold convert
+  rw [if_neg (by simpa using hr), if_pos h2]
+
+section examples
+def exCfg21 : Cfg Nat :=
+  { compile := fun v s _ => v + s.length, truncErr := fun n => ⟨[if n < 2 then "EOFError" else "UnpicklingError", "Exception"], false⟩,
+    exclLibs := true }
+def exO : Opts := { libs := [], mtimeCheck := true, cache := true, codegen := false, expandMx := false, rest := [] }
+def exW21 : World Nat := ⟨fun f => if f = 0 then [⟨"M.mo", 3, 7⟩] else [], none, 1⟩
+theorem exLawful21 : Lawful exCfg21 := by
+  intro n; by_cases h : n < 2 <;> simp [exCfg21, convert, caughtClasses, h]
+-- the hypotheses are satisfiable; and the crash really leaves a damaged file that is repaired
+example : FreshInv exCfg21 [] exW21 ∧ exO.norm.mtimeCheck = true := ⟨(by intro c hc; cases hc), rfl⟩
+example : ((transfer exCfg21 (transfer exCfg21 exW21 exO 10 100 (.after 37)).1 exO 20 100).2).kind
+    = "compiled:damaged" := by decide
+example : ((transfer exCfg21 (transfer exCfg21 (transfer exCfg21 exW21 exO 10 100 (.after 37)).1 exO 20 100).1
+    exO 30 100).2).kind = "hit" := by decide
+-- a class outside the except clauses: the hypothesis of `uncaught_class_escapes` is satisfiable
+example : convert ⟨["ValueError", "Exception"], false⟩ = none := by decide
+example : convert ⟨["ModuleNotFoundError", "ImportError", "Exception"], false⟩ = some .damaged := by decide
+end examples
+
+end PymocaVerif.CacheState
+
+namespace PymocaVerif.CacheFile
+
+/-- Reader/writer: in every interleaving of two `transfer_model` calls (any schedule of
+    their load / open / write-piece / close steps, any split of the writes into pieces), a
+    call that is about to load sees the initial file, or exactly a prefix of the bytes `B`
+    the other call is writing (possibly empty, possibly all of it) — never anything else.
+    With `crash_safe`/`truncation_safe` (a prefix is repaired, a complete fresh file is a
+    correct hit) every reader therefore returns a correct model. -/
+theorem reader_sees_initial_or_prefix (B : Nat → Nat) (N : Nat) (valid : File → Bool)
+    (f0 : Option File) (acts : List Act) (s : Sys) (i : Bool)
+    (hrun : runActs B N valid (init f0) acts = some s) (hi : s.ph i = .start) :
+    s.file = f0 ∨ ∃ f p, s.file = some f ∧ p ≤ N ∧ IsPre f B p := by
+  have hg := good_run B N valid f0 acts _ s (good_init B N f0) hrun
+  have hio : (s.ph i).opened = false := by rw [hi]; rfl
+  by_cases hother : (s.ph (!i)).opened = true
+  · right
+    obtain ⟨l, f, _, hlo, hfile, h1, h2, h3, h4⟩ := hg.owner (!i) hother
+    have hl : l = !i := by
+      rcases bool_cases i l with h | h
+      · subst h; rw [hio] at hlo; cases hlo
+      · exact h
+    subst hl
+    simp only [Bool.not_not] at h4
+    exact ⟨f, posOf N (s.ph (!i)), hfile, by have := h4 hio; omega, h4 hio, h3⟩
+  · left
+    have hother : (s.ph (!i)).opened = false := by simpa using hother
+    cases i with
+    | false => exact (hg.fresh hio hother).1
+    | true => exact (hg.fresh hother hio).1
+
+/-- When both calls have returned and at least one of them wrote, the file holds exactly `B`:
+    an in-progress or overlapping write leaves nothing behind that could break later loads. -/
+theorem final_file_complete (B : Nat → Nat) (N : Nat) (valid : File → Bool)
+    (f0 : Option File) (acts : List Act) (s : Sys) (i : Bool)
+    (hrun : runActs B N valid (init f0) acts = some s)
+    (hdone : ∀ j, ∃ b, s.ph j = .done b) (hi : s.ph i = .done false) :
+    ∃ f, s.file = some f ∧ IsPre f B N := by
+  have hg := good_run B N valid f0 acts _ s (good_init B N f0) hrun
+  have hio : (s.ph i).opened = true := by rw [hi]; rfl
+  obtain ⟨l, f, _, hlo, hfile, h1, h2, h3, _⟩ := hg.owner i hio
+  obtain ⟨b, hb⟩ := hdone l
+  have : b = false := by
+    cases b with
+    | false => rfl
+    | true => rw [hb] at hlo; cases hlo
+  subst this
+  simp only [hb, posOf] at h2 h3
+  exact ⟨f, hfile, by omega, h3⟩
+
+/-- If nobody wrote (both calls were served from the cache) the file is untouched. -/
+theorem untouched_when_both_hit (B : Nat → Nat) (N : Nat) (valid : File → Bool)
+    (f0 : Option File) (acts : List Act) (s : Sys)
+    (hrun : runActs B N valid (init f0) acts = some s)
+    (h0 : s.ph false = .done true) (h1 : s.ph true = .done true) : s.file = f0 := by
+  have hg := good_run B N valid f0 acts _ s (good_init B N f0) hrun
+  exact (hg.fresh (by rw [h0]; rfl) (by rw [h1]; rfl)).1
+
+section examples
+def exB : Nat → Nat := fun j => 10 + j
+/-- both calls miss; the second opens (truncates) while the first is half way -/
+def exActs : List Act :=
+  [.load false, .load true, .openW false, .write false 2, .openW true, .write false 2, .write true 1,
+   .close false, .write true 3, .close true]
+example : (runActs exB 4 (fun f => f.isAll exB 4) (init none) exActs).map (fun s => s.file.map File.bytes)
+    = some (some [10, 11, 12, 13]) := by decide
+-- in the middle of that schedule the file is *not* a prefix (a hole of zeros): two writers
+example : (runActs exB 4 (fun f => f.isAll exB 4) (init none) (exActs.take 6)).map (fun s => s.file.map File.bytes)
+    = some (some [0, 0, 12, 13]) := by decide
+end examples
+
+end PymocaVerif.CacheFile
